@@ -201,24 +201,47 @@ def insertSorted (x : Nat) : List Nat → List Nat
 def qbitOrder (n : Nat) (rmSorted : List Nat) : List (Option Nat) :=
   rmSorted.foldl (fun o x => insertAt o x none) ((List.range (n - rmSorted.length)).map some)
 
-/-- `taper_off_qubits` -/
+/-- one Pauli of a term: dropped on a removed qubit, renumbered by `qbit_order` otherwise -/
+def taperTermStep (order : List (Option Nat)) (l : Term) (p : Factor) : Except Err Term :=
+  match order[p.1]? with
+  | none => Except.error Err.indexError
+  | some none => .ok l
+  | some (some q) => .ok (l ++ [(q, p.2)])
+
+/-- the Paulis of a term on the kept qubits, renumbered by `qbit_order` -/
+def taperTerm (order : List (Option Nat)) (t : Term) : Except Err Term :=
+  t.foldlM (taperTermStep order) []
+
+/-- one `skimmed_operator +=` of `taper_off_qubits`, with the running exactness flag -/
+def taperStep (tol : Rat) (order : List (Option Nat)) (acc : Op × Bool) (e : Term × GQ) : Except Err (Op × Bool) :=
+  if e.1 = [] then
+    .ok (Model.iadd tol acc.1 (mk .qubit [] e.2), acc.2 && exactAddB tol acc.1 (mk .qubit [] e.2))
+  else do
+    let tpls ← taperTerm order e.1
+    .ok (Model.iadd tol acc.1 (mk .qubit tpls e.2), acc.2 && exactAddB tol acc.1 (mk .qubit tpls e.2))
+
+/-- the last loop of `taper_off_qubits`: the Paulis on the removed qubits are dropped -/
+def taperStrip (tol : Rat) (n : Nat) (ham : Op) (rmSorted : List Nat) : Except Err (Op × Bool) :=
+  ham.foldlM (taperStep tol (qbitOrder n rmSorted)) ([], true)
+
+/-- `taper_off_qubits`; the flag is the exact regime of the reduction and of the last loop -/
 def taperOffQubits (tol : Rat) (operator : Op) (stabs : List Op) (manual : Bool) (fixed : Option (List Nat)) :
     Except Err (Op × List Nat × Bool × Bool) := do
   let nStabs := stabs.foldl (fun m s => max m (countQubits s)) 0
   let n := max (countQubits operator) nStabs
   let (ham, rm, stale, exact) ← reduceNumberOfTerms tol operator stabs false manual fixed
   let rmSorted := rm.foldr insertSorted []
-  let order := qbitOrder n rmSorted
-  let out ← ham.foldlM (fun (acc : Op) (e : Term × GQ) =>
-    if e.1 = [] then .ok (Model.iadd tol acc (mk .qubit [] e.2))
-    else do
-      let tpls ← e.1.foldlM (fun (l : Term) (p : Factor) =>
-        match order[p.1]? with
-        | none => Except.error Err.indexError
-        | some none => .ok l
-        | some (some q) => .ok (l ++ [(q, p.2)])) []
-      .ok (Model.iadd tol acc (mk .qubit tpls e.2))) []
-  .ok (out, rmSorted, stale, exact)
+  let out ← taperStrip tol n ham rmSorted
+  .ok (out.1, rmSorted, stale, exact && out.2)
+
+/-- hypothesis of `taper_off_qubits_invariant_subspace`, evaluated per input: on every removed qubit
+the reduced operator carries only `I`/`X` or only `I`/`Z` -/
+def taperHypX (tol : Rat) (operator : Op) (stabs : List Op) (manual : Bool) (fixed : Option (List Nat)) : Bool :=
+  match reduceNumberOfTerms tol operator stabs false manual fixed with
+  | .ok r => r.2.1.all fun q =>
+      (r.1.all fun e => e.1.all fun f => f.1 != q || f.2 == 1) ||
+      (r.1.all fun e => e.1.all fun f => f.1 != q || f.2 == 3)
+  | .error _ => true
 
 /-! ### qubit_operator_transforms.py -/
 
